@@ -200,6 +200,69 @@ def run_child(job, argv, wall_limit):
             return "timeout"
 
 
+HANG_CPU = float(os.environ.get("VERIF_HANG_CPU", "120"))      # seconds of processor time a single case may consume
+HANG_BLOCKED = float(os.environ.get("VERIF_HANG_BLOCKED", "90"))  # seconds all threads may sleep without consuming any
+HANG_WALL = float(os.environ.get("VERIF_HANG_WALL", "2400"))     # then: inconclusive (starved), never a violation
+
+
+def _proc_cpu_and_states(pid):
+    """(processor seconds consumed by the process, set of thread states) from /proc; (None, None) when it is gone."""
+    try:
+        f = open("/proc/%d/stat" % pid).read()
+        rest = f[f.rindex(")") + 2:].split()
+        cpu = (int(rest[11]) + int(rest[12])) / float(os.sysconf("SC_CLK_TCK"))
+        states = set()
+        for t in os.listdir("/proc/%d/task" % pid):
+            try:
+                g = open("/proc/%d/task/%s/stat" % (pid, t)).read()
+                states.add(g[g.rindex(")") + 2:].split()[0])
+            except (OSError, ValueError):
+                pass
+        return cpu, states
+    except (OSError, ValueError):
+        return None, None
+
+
+def confirm_hang(job, n):
+    """Re-executes case n alone. Returns "returned", "hang: ..." or a reason why no verdict could be taken.
+    hang  <=>  the case consumed HANG_CPU seconds of processor time without returning (typical cases need micro- to
+    milliseconds, the slowest 32-bit ones a few seconds), or every thread of the process slept for HANG_BLOCKED
+    seconds in a row while the process consumed no processor time (blocked for ever). A process that is merely not
+    scheduled (runnable threads, little processor time) is neither: after HANG_WALL seconds the case is inconclusive."""
+    with open(job.stderr, "ab") as errf:
+        p = subprocess.Popen(job.argv(only=n, deadline="4h"), env=job.env(), stdout=errf, stderr=errf, cwd=ROOT)
+    t0 = time.time()
+    last_cpu, idle_since = 0.0, None
+    verdict = None
+    while True:
+        try:
+            p.wait(timeout=1.0)
+            return "returned"
+        except subprocess.TimeoutExpired:
+            pass
+        cpu, states = _proc_cpu_and_states(p.pid)
+        now = time.time()
+        if cpu is None:
+            continue
+        if cpu >= HANG_CPU:
+            verdict = "hang: no return after %.0f s of processor time (%.0f s wall) when re-run alone" % (cpu, now - t0)
+            break
+        if cpu - last_cpu < 0.02 and states and states <= {"S"}:
+            idle_since = idle_since or now
+            if now - idle_since >= HANG_BLOCKED:
+                verdict = "hang: every thread blocked for %.0f s without consuming processor time when re-run alone" % (now - idle_since)
+                break
+        else:
+            idle_since = None
+        last_cpu = cpu
+        if now - t0 >= HANG_WALL:
+            verdict = "starved: %.1f s of processor time in %.0f s wall, still running" % (cpu, now - t0)
+            break
+    p.kill()
+    p.wait()
+    return verdict
+
+
 def tail(path, n=4000):
     try:
         with open(path, "rb") as f:
@@ -240,12 +303,15 @@ def run_job(job, wall_limit):
             if n is None:
                 job.harness_errors.append("exit 3 without hang-suspect record")
                 break
-            # confirm alone with a generous budget (bounded progress, DESIGN 3.6)
-            rc2 = run_child(job, job.argv(only=n, deadline="120s"), 200)
-            if rc2 == 3 or rc2 == "timeout":
-                job.hangs.append(dict(n=n, desc=hs[-1].get("desc", ""), stacks=hs[-1].get("stacks", "")[:4000]))
-            else:
+            # confirm alone (bounded progress, DESIGN 3.6). The verdict is taken on the processor time the case consumed,
+            # not on wall-clock time: on a loaded machine a starved process is not a hung one.
+            how = confirm_hang(job, n)
+            if how.startswith("hang"):
+                job.hangs.append(dict(n=n, desc=hs[-1].get("desc", ""), stacks=hs[-1].get("stacks", "")[:4000], how=how))
+            elif how == "returned":
                 job.incon.append("case %d exceeded the per-case deadline under load but returned when re-run alone" % n)
+            else:
+                job.incon.append("case %d exceeded the per-case deadline and its solitary re-run was inconclusive: %s" % (n, how))
             after = n
             continue
         # any other exit: crash (fatal error, signal, os.Exit from library code)
@@ -460,7 +526,7 @@ def check(prop, tier):
         for c in j.crashes:
             violations.append(dict(job=j, n=c["n"], kind="crash", msg="child process died (rc=%s) while executing this case; stderr tail: %s" % (c["rc"], c["tail"][-1500:]), desc=c["desc"]))
         for h in j.hangs:
-            violations.append(dict(job=j, n=h["n"], kind="hang", msg="case did not return within 120 s when re-run alone; stacks: %s" % h["stacks"][:1500], desc=h["desc"]))
+            violations.append(dict(job=j, n=h["n"], kind="hang", msg="%s; stacks: %s" % (h.get("how") or "hang: case did not return when re-run alone", h["stacks"][:1500]), desc=h["desc"]))
         if j.variant.startswith("race"):
             seen = set()
             reps = race_reports(j)
@@ -582,12 +648,17 @@ def replay(path):
         # race reports and init crashes are properties of a whole job: re-run the shard
         run_job(j, 7200)
     else:
-        rcode = run_child(j, j.argv(only=r["case"], deadline="120s"), 600)
-        if rcode not in (0, 3, 4, 5, "timeout"):
-            n, desc = read_cur(j.cur)
-            j.crashes.append(dict(n=n, desc=desc, rc=rcode, tail=tail(j.stderr)))
-        if rcode == 3 or rcode == "timeout":
-            j.hangs.append(dict(n=r["case"], desc="", stacks=""))
+        if r.get("kind") == "hang":
+            how = confirm_hang(j, r["case"])
+            if how.startswith("hang"):
+                j.hangs.append(dict(n=r["case"], desc="", stacks="", how=how))
+            elif how != "returned":
+                print("replay inconclusive: %s" % how)
+        else:
+            rcode = run_child(j, j.argv(only=r["case"], deadline="4h"), 7200)
+            if rcode not in (0, 3, 4, 5, "timeout"):
+                n, desc = read_cur(j.cur)
+                j.crashes.append(dict(n=n, desc=desc, rc=rcode, tail=tail(j.stderr)))
     known_open, _ = load_known()
     bad = 0
     for rec in read_journal(j.journal):
@@ -602,7 +673,7 @@ def replay(path):
         print("crash rc=%s case=%s %s\n%s" % (c["rc"], c["n"], c["desc"], c["tail"][-3000:]))
     for h in j.hangs:
         bad += 1
-        print("hang: case %s did not return" % h["n"])
+        print("case %s: %s" % (h["n"], h.get("how") or "hang: did not return"))
     if j.variant.startswith("race"):
         for rep in race_reports(j):
             if "github.com/emmansun/gmsm" in rep:
